@@ -58,17 +58,17 @@ Proof.
   - rewrite co_loop_spec by exact Hs. reflexivity.
 Qed.
 
-Lemma model_op_spec f others o :
+Lemma model_op1_spec f others o :
   ssorted (map fst (f_es f)) = true ->
   pay_sorted (f_es f) ->
   all_sorted others ->
-  wf_op f o = true ->
-  strip1 (model_op f others o) = spec_op f others o.
+  wf_op1 f o = true ->
+  strip1 (model_op1 f others o) = spec_op1 f others o.
 Proof.
   intros Hs Hps Ho Hwf.
   assert (Hall : all_sorted (f_es f :: others)) by (constructor; assumption).
-  destruct o as [sp|lo hi sp|sp|ref|ref|lo hi step ref|sp|ref|ref|lo hi step ref|k b iv sp|p sp|k b iv lo hi];
-    cbn [model_op spec_op].
+  destruct o as [sp|lo hi sp|sp|ref|ref|lo hi step ref|sp|ref|ref|lo hi step ref|k b iv sp|p sp|k b iv lo hi|lo hi step o'];
+    cbn [model_op1 spec_op1].
   - apply m_single_spec. unfold iter_occupancy. apply iter_range_spec; assumption.
   - apply m_single_spec. apply iter_range_spec; assumption.
   - apply m_single_spec. unfold iter_active. apply iter_range_spec; assumption.
@@ -82,14 +82,33 @@ Proof.
   - apply m_lazy_spec.
     + apply project_spec; assumption.
     + apply spec_project_sorted; [exact Hs|].
-      cbn [wf_op] in Hwf. apply andb_true_iff in Hwf. destruct Hwf as [Hk _]. lia.
+      cbn [wf_op1] in Hwf. apply andb_true_iff in Hwf. destruct Hwf as [Hk _]. lia.
     + apply spec_project_fit. exact Hps.
   - apply m_lazy_spec.
-    + cbn [wf_op] in Hwf. apply andb_true_iff in Hwf. destruct Hwf as [_ Hsp].
+    + cbn [wf_op1] in Hwf. apply andb_true_iff in Hwf. destruct Hwf as [_ Hsp].
       apply prune_spec; assumption.
     + apply spec_prune_sorted. exact Hs.
     + apply spec_prune_fit. exact Hps.
-  - apply m_single_spec. apply project_window_spec; [exact Hs|]. cbn [wf_op] in Hwf. lia.
+  - apply m_single_spec. apply project_window_spec; [exact Hs|]. cbn [wf_op1] in Hwf. lia.
+  - discriminate.
+Qed.
+
+Lemma model_op_spec o : forall f others,
+  ssorted (map fst (f_es f)) = true ->
+  pay_sorted (f_es f) ->
+  all_sorted others ->
+  wf_op f o = true ->
+  strip1 (model_op f others o) = spec_op f others o.
+Proof.
+  induction o as [| | | | | | | | | | | | |lo hi step o' IH]; intros f others Hs Hps Ho Hwf;
+    try (apply model_op1_spec; assumption).
+  cbn [model_op spec_op wf_op] in *.
+  apply andb_true_iff in Hwf. destruct Hwf as [Hwf Hwf'].
+  rewrite shape_ref_loop_post. apply IH; cbn [set_es f_es f_d]; auto.
+  - unfold spec_post. fold (post_of (dflt (f_d f) (f_es f)) (f_es f) (zrange lo hi step)).
+    apply post_of_sorted. exact Hs.
+  - unfold spec_post. fold (post_of (dflt (f_d f) (f_es f)) (f_es f) (zrange lo hi step)).
+    apply post_of_pay_sorted; [apply dflt_sorted|exact Hps].
 Qed.
 
 Lemma forallb_all_sorted fs :
@@ -113,5 +132,5 @@ Proof.
   unfold c07_model, c07_spec. rewrite strip_saved_Vl. unfold Vl. f_equal.
   rewrite map_map. apply map_ext_in. intros o Hin. symmetry.
   rewrite forallb_forall in Hops.
-  apply model_op_spec; auto.
+  apply (model_op_spec o); auto.
 Qed.
